@@ -62,9 +62,26 @@ Fixpoint item_has_out (d : nat) (it : item) : bool :=
   end.
 Definition has_out (d : nat) (l : list item) : bool := existsb (item_has_out d) l.
 
+(* (input?, output?) flags of the uses of d in walk order *)
+Fixpoint walk_flags_item (d : nat) (it : item) : list (bool * bool) :=
+  match it with
+  | ILoop _ body => (fix go (l : list item) : list (bool * bool) :=
+                       match l with [] => [] | x :: r => walk_flags_item d x ++ go r end) body
+  | _ => match item_flags d it with Some f => [f] | None => [] end
+  end.
+
+(* the first use of d in walk order lies inside this loop item and only writes: the write may not execute
+   (zero iterations; scf.if), so the pass copies in BEFORE the enclosing op of the cast's block *)
+Definition nested_first_write (d : nat) (it : item) : bool :=
+  match it with
+  | ILoop _ _ => match walk_flags_item d it with f :: _ => negb (fst f) | [] => false end
+  | _ => false
+  end.
+
 (* copy-in before the FIRST use in walk order when that use is an input use (a first use that only
-   writes makes the new buffer current: no copy-in at all, final repair of F22); copy-out after the
-   last use as output.
+   writes makes the new buffer current: no copy-in at all, final repair of F22) -- except that a first
+   use that only writes but is nested in a region below the cast's block gets a copy-in in front of its
+   enclosing op in the cast's block (ins_list); copy-out after the last use as output.
    seen = a use of d has already been found; later = an output use follows outside this item *)
 Fixpoint ins_item (d s0 : nat) (seen later : bool) (it : item) : list item * bool :=
   match it with
@@ -90,9 +107,10 @@ Fixpoint ins_list (d s0 : nat) (seen later : bool) (l : list item) : list item *
   match l with
   | [] => ([], seen)
   | x :: r =>
+      let pre := if negb seen && nested_first_write d x then [ICopy s0 d] else [] in
       let x' := ins_item d s0 seen (has_out d r || later) x in
       let r' := ins_list d s0 (snd x') later r in
-      (fst x' ++ fst r', snd r')
+      (pre ++ fst x' ++ fst r', snd r')
   end.
 
 (* renaming of a value (the `source_type == dest_type` branch: uses of the cast are redirected) *)
@@ -331,12 +349,6 @@ Fixpoint item_eqb (a b : item) : bool :=
 Definition prog_eqb (a b : list item) : bool := list_eqb item_eqb a b.
 
 (* ---- program-level classification of the known finding classes ------------------------------------ *)
-Fixpoint walk_flags_item (d : nat) (it : item) : list (bool * bool) :=
-  match it with
-  | ILoop _ body => (fix go (l : list item) : list (bool * bool) :=
-                       match l with [] => [] | x :: r => walk_flags_item d x ++ go r end) body
-  | _ => match item_flags d it with Some f => [f] | None => [] end
-  end.
 Definition walk_flags (d : nat) (l : list item) : list (bool * bool) := flat_map (walk_flags_item d) l.
 
 Fixpoint order_ok (seen dirty : bool) (fl : list (bool * bool)) : bool :=
